@@ -331,6 +331,11 @@ class WrappedDisk(DiskBase):
     def grid(self):
         return [[self.faces[0]], self.faces[1:5], self.faces[5:]]
 
+    @property
+    def core(self) -> List[Face]:
+        """Everything inside the outer ring of faces: the center quad and the ring around it"""
+        return [*self.grid[0], *self.grid[1]]
+
     def add_edges(self):
         for face in self.grid[1]:
             face.add_edge(1, Origin(self.center))
